@@ -12,7 +12,7 @@ MANIFEST = {
                   "panics under the stated caller guards (with machine-checked refutations for negative lengths, SkipBytes overflow, "
                   "ReadPossiblyZeroTerminatedString and LookAhead); DecodeHeader/DecodeHeaderSR and DecodeBox/DecodeBoxSR with both "
                   "container child loops return a box, EOF or an error for every byte string, never panic, terminate within fuel len+1 "
-                  "with ticks+alloc <= 2*len+2 (SliceReader path) / 6*len+18 (io.Reader path) (leaf bodies opaque: any leaf decoder satisfying the stated contract, instantiated for mdat/free/skip/unknown); the file "
+                  "with ticks+alloc <= 2*len+29 (SliceReader path) / 6*len+29 (io.Reader path) (leaf bodies opaque: any leaf decoder satisfying the stated contract, instantiated for mdat/free/skip/unknown); the file "
                   "assembly (DecodeFile/DecodeFileSR loops, AddChild, startSegmentIfNeeded, findAndReadMfra, senc second pass), "
                   "File.Encode/EncodeSW in both modes and File.Info never panic on any list of top-level box shapes under any decode "
                   "options, for the REPAIRED text; the pinned text is refuted at 9 sites by concrete shape lists. "
